@@ -72,3 +72,26 @@ PROPS["C07"] = {
     "uncovered": ["invariant preservation of setLocator*/setName*/addColumnsByConstant/switchLocator is not yet a theorem (decided per history by the executable invariant)", "addColumns(tab), addSelection*, setColumn* (not modelled)"],
     "assumptions": ["column names drawn from [a-z0-9.-]"],
 }
+
+PROPS["C11"] = {
+    "module": "GstProofs.Props.C11",
+    "theorems": [
+        "GstProofs.C11.prodMatMat", "GstProofs.C11.op_transpose", "GstProofs.C11.transpose_transpose",
+        "GstProofs.C11.prodMatVec", "GstProofs.C11.prodVecMat", "GstProofs.C11.linear_combination",
+        "GstProofs.C11.prodScalar", "GstProofs.C11.row_col_scaling", "GstProofs.C11.prodNorm_transpose",
+        "GstProofs.C11.inverse_unique", "GstProofs.C11.checkSolve_sound", "GstProofs.C11.sort_perm",
+        "GstProofs.LinAlg.toMatrix_mul", "GstProofs.LinAlg.toMatrix_id", "GstProofs.LinAlg.toMatrix_diag",
+    ],
+    "harnesses": ["vh_c11"],
+    "level": "proof",
+    "flavour": {"thorough": "asan"},
+    "env": {"thorough": {"ASAN_OPTIONS": "detect_leaks=0"}},
+    "technique": "Lean 4: every matrix operation of the model is its textbook entry-wise definition and is proved equal to the corresponding Mathlib Matrix operation for all shapes (bridge theorems); exact differential correspondence on integer/dyadic matrices for five storage classes and thread counts 1-16; residual certificates (checked in exact rational arithmetic) for inverse/solve/Cholesky/eigen; AddressSanitizer build in the thorough tier",
+    "level_text": "Partial proof: products (all transposition flags), transposition, linear combinations, scalings, congruence products and vector products of the model are theorems (equal to Mathlib's Matrix operations, every shape); the model is tied to all storage classes by an exact differential run (sums and products are exact in doubles on the generated contents); inversion, solve, Cholesky and eigen-decomposition are checked by verified-definition residual certificates; thread independence is observed (each case runs at a random thread count 1-16), not proved.",
+    "level_note": "Trusted: Lean kernel + 3 standard axioms; Eigen/CSparse kernels are not modelled (only their results are compared/certified); OpenMP scheduling is observed only; log-determinant and simulation of CholeskyDense are not covered.",
+    "rule": "random matrices 1-7 x 1-7 (square, non-square, 1xN, Nx1; dense or half-empty; small integers or dyadics k/4) in storage rect/square/symm/sparse-Eigen/sparse-cs at a random thread count in {1,2,4,8,16}; per matrix: transpose, mat-vec and vec-mat products with both flags, mat-mat product with the 4 flag combinations, linear combination, scalar ops, row/column scaling and division, row/column/diagonal assignment, congruence products, then invert/solve/Cholesky/eigen certificates on SPD matrices, and 16 vector helpers. distinct = distinct request line; trivial = 1x1 matrices",
+    "trivial": lambda line: " 1 1 " in line and line.split(" ")[1] not in ("v1", "v2", "vl"),
+    "trusted_base": TB_COMMON + ["Mathlib Matrix library"],
+    "uncovered": ["thread schedules (observed only)", "CholeskyDense log-determinant / simulate", "sparse cs setRow/setColumn (documented to update existing entries only)", "empty (0-row/0-column) matrices"],
+    "assumptions": ["matrix contents are small integers/dyadics so that double arithmetic is exact for sums/products"],
+}
